@@ -154,12 +154,29 @@ var finiteShapes = []shape{
 	}},
 }
 
+// uniform draws an (approximately) uniformly distributed value in [0, n):
+// rapid's integer generators are heavily biased towards small values, which
+// is wanted for sizes but not for choosing between classes of cases.
+func uniform(t *rapid.T, label string, n int) int {
+	x := rapid.Uint64().Draw(t, label)
+	x += 0x9e3779b97f4a7c15
+	x = (x ^ (x >> 30)) * 0xbf58476d1ce4e5b9
+	x = (x ^ (x >> 27)) * 0x94d049bb133111eb
+	x ^= x >> 31
+	return int(x % uint64(n))
+}
+
 func lines(s string) string { return strings.ReplaceAll(s, "; ", "\n") }
 
 func drawShape(t *rapid.T, shapes []shape, maxA int) *program {
-	i := rapid.IntRange(0, len(shapes)-1).Draw(t, "shape")
-	a := rapid.IntRange(0, maxA).Draw(t, "a")
-	b := rapid.IntRange(0, 99).Draw(t, "b")
+	i := uniform(t, "shape", len(shapes))
+	var a int
+	if maxA < 100 || rapid.Bool().Draw(t, "aUniform") {
+		a = uniform(t, "a", maxA+1)
+	} else {
+		a = rapid.IntRange(0, maxA).Draw(t, "a")
+	}
+	b := uniform(t, "b", 100)
 	sh := shapes[i]
 	return &program{Kind: sh.kind, Source: sh.src(a, b), Modules: sh.mods}
 }
@@ -174,18 +191,22 @@ func drawInfinite(t *rapid.T) *program {
 // discard reason when it is in the property's domain.
 func drawGenerated(t *rapid.T) (*program, string) {
 	var inputs map[string]*lang.Val
-	if rapid.IntRange(0, 2).Draw(t, "withInputs") > 0 {
+	if uniform(t, "withInputs", 3) > 0 {
 		inputs = gen.Inputs(t, true, false, false)
 	} else {
 		inputs = map[string]*lang.Val{}
 	}
-	o := gen.Opts{MaxStmts: 10, MaxDepth: 3, NoTime: true, ControlHeavy: rapid.IntRange(0, 2).Draw(t, "controlHeavy") > 0}
-	if rapid.IntRange(0, 5).Draw(t, "withModules") == 0 {
+	o := gen.Opts{MaxStmts: 10, MaxDepth: 3, NoTime: true, ControlHeavy: uniform(t, "controlHeavy", 3) > 0}
+	if uniform(t, "withModules", 6) == 0 {
 		o.Modules = []string{"m1"}
 	}
 	lp, _ := gen.Program(t, o, inputs)
-	if _, why := refx.Stable(lp, inputs, ref.DefaultConfig()); why != "" {
+	out, why := refx.Stable(lp, inputs, ref.DefaultConfig())
+	if why != "" {
 		return nil, why
+	}
+	if out.Status == "compile-error" {
+		return nil, "excluded:compile-error (reference agrees)"
 	}
 	p := &program{Kind: "gen", Source: lang.Render(lp.Main), Inputs: inputs}
 	if len(lp.Modules) > 0 {
@@ -203,7 +224,7 @@ func drawGenerated(t *rapid.T) (*program, string) {
 
 // drawProgram: which fraction of cases is non-terminating is the caller's.
 func drawProgram(t *rapid.T, infinitePermille int) (*program, string) {
-	r := rapid.IntRange(0, 999).Draw(t, "progClass")
+	r := uniform(t, "progClass", 1000)
 	switch {
 	case r < infinitePermille:
 		return drawInfinite(t), ""
